@@ -348,6 +348,9 @@ def check_C09(rep, known):
 def check_C10(rep, known):
     life_job(rep, [r'C10\.'], known)
     scen_job(rep, 'ScenShoot', 'C10', [r'C10\.', r'build', r'varmap'], known)
+    # SplineMethod: linear-in-time guesses for a vector state on chains of different length
+    import splinem
+    engine.process_results(rep, [{'sc': {'kind': 'spline-mixed-chain-guess'}}], [{'results': splinem.mixedchain(), 'error': None}], [r'C10\.'], known)
 
 
 def check_C11(rep, known):
